@@ -2,10 +2,11 @@
 Require Extraction.
 Require ExtrOcamlBasic.
 From Coq Require Import ZArith NArith.
-From GV Require Import Pack.NumStrModel Pack.Model Pack.QuoteModel.
+From GV Require Import Pack.NumStrModel Pack.Model Pack.QuoteModel Pack.FmtModel.
 Extraction Language OCaml.
 Extraction "model.ml" Z.add N.add Nat.add Pos.add
   Model.pack Model.unpack Model.packsize Model.to_i64
   NumStrModel.format_int NumStrModel.parse_int NumStrModel.fmt_unsigned NumStrModel.fmt_signed
   NumStrModel.c_unsigned NumStrModel.parse_digits NumStrModel.quote_int NumStrModel.lit_int
-  QuoteModel.quote QuoteModel.lua_string_literal QuoteModel.is_print_tab.
+  QuoteModel.quote QuoteModel.lua_string_literal QuoteModel.is_print_tab
+  FmtModel.go_fmt FmtModel.c_fmt FmtModel.c_defined FmtModel.defect_class_src.
